@@ -5,7 +5,7 @@ CONSTANTS
   Weaken = "none"
 INIT TInit
 NEXT TNext
-INVARIANTS Conformant NoBadC01 NoBadC02 NoBadC03 NoBadC05 NoBadC08 NoBadC16
+INVARIANTS NoBadC01 NoBadC08
 ALIAS Brief
 POSTCONDITION Accepted
 CHECK_DEADLOCK FALSE
